@@ -1,4 +1,4 @@
-import Wip.ModsSeg
+import Cutadapt.Proofs.ModsSeg
 /-! The rounds of `match_and_trim`, the parts of (linked) matches, and `remainder(matches)`. Core Lean only. -/
 namespace Cutadapt
 open Cutadapt.Adapters Cutadapt.Qualtrim
